@@ -82,14 +82,14 @@ PROPS['C09'] = dict(
     level_text='Unbounded proof (all N, sizes, columns, limb values): every limb of the selected column equals the exact ring map of the operand limbs by the documented size rule; rotation, automorphism and ring switching equal their Z[X]/(X^N+1) spec for every exponent; trait contracts discharged for the FFT64Ref/NTT120Ref/ZnxRef implementors.',
     level_note='Trusted: the VecZnx accessor interface (I-LAYOUT), vstd, the extraction rules; wrapping-free preconditions (no i64 overflow) are part of the contracts; big-accumulator (i128) variants, split_ring/merge_rings and AVX kernels are not covered by this check.',
     units=[
-        V('znx'), V('vec_znx_arith'), V('vec_znx_ring'), V('galois'),
+        V('znx'), V('vec_znx_arith'), V('vec_znx_ring'), V('vec_znx_merge'), V('galois'),
         K('poulpy-cpu-ref', 'verif_kani', ['c09_mask_mod_i64', 'c09_mask_mod_usize', 'c03_mask_mod_u64'], cls='complete', timeout=600,
           functions=['leaf fact: p & (m-1) == p mod m for power-of-two m (imported by znx_rotate / znx_automorphism_ref / galois_element proofs)']),
     ],
     trusted_base=VERUS_TRUST,
     assumptions=['no i64 overflow in limb-wise add/sub/negate (stated as preconditions; the debug profile would panic, the release profile wraps)',
                  'ring degree N a power of two <= 2^28 for rotate/automorphism (precondition)'],
-    remainder='vec_znx_split_ring / vec_znx_merge_rings (merge_rings does not merge: DESIGN §6-11), big-accumulator variants, AVX kernels (C10)',
+    remainder='vec_znx_split_ring (only a bounded Kani harness, thorough tier), big-accumulator variants, AVX kernels (C10)',
 )
 
 PROPS['C11'] = dict(
@@ -97,7 +97,7 @@ PROPS['C11'] = dict(
     technique='Verus postconditions that define every limb of the selected column from the inputs only, plus frame clauses over all other limb blocks, on the extracted real text',
     level_text='Unbounded proof for the coefficient-domain column operations: each ensures gives final(res).limb(col, j) for all j < size as a function of the read-only inputs (no old(res) on the right-hand side for out-of-place ops) and frame_ok: every block outside (col, 0..size) is unchanged.',
     level_note='Covers the vec_znx_* reference operations under contract (see functions_under_contract); the DFT-family operations and the core layer are not covered by this check (no abstract-kernel harness built yet).',
-    units=[V('vec_znx_arith'), V('vec_znx_ring'), V('vec_znx_normalize')],
+    units=[V('vec_znx_arith'), V('vec_znx_ring'), V('vec_znx_merge'), V('vec_znx_normalize')],
     trusted_base=VERUS_TRUST,
     assumptions=['operands are distinct objects from the result (Rust borrow rules: &mut res vs &a)'],
     remainder='DFT-domain operations (vec_znx_dft_*, svp_*, vmp_*, cnv_*), vec_znx_big_*, cross-radix normalisation, shifts, core-layer operations',
@@ -117,13 +117,13 @@ PROPS['C08'] = dict(
 PROPS['C12'] = dict(
     level='proof',
     technique='Kani contract check of the real arena allocator (take_slice_aligned / take_slice_default / scratch_available) with symbolic misalignment, buffer and take lengths; Verus obligations on scratch slices of the verified column operations',
-    level_text='Allocator: complete proof of address/length/alignment/disjointness postconditions and of the availability ledger (avail decreases by exactly len + alignment padding; no padding when len is a multiple of 64); no panic whenever the request fits; the out-of-space panic is reachable only when it does not fit (should_panic harness). Coefficient-domain ops: tmp slice of *_tmp_bytes(n)/8 elements suffices (Verus).',
+    level_text='Allocator: complete proof of address/length/alignment/disjointness postconditions and of the availability ledger (avail decreases by exactly len + alignment padding; no padding when len is a multiple of 64); no panic whenever the request fits; the out-of-space panic is reachable only when it does not fit (should_panic harness). Coefficient-domain in-place ops (rotate/automorphism/mul_xp_minus_one/normalize _assign): unbounded Verus chain size query -> HAL default glue (take_slice of *_tmp_bytes/8 elements) -> reference operation's scratch precondition.',
     level_note='Declared-size-suffices for DFT-family and core operations is NOT decided here (needs exact-window harnesses); for ring degrees N < 8 limb byte sizes are not multiples of 64 and padding is not budgeted by size queries (DESIGN §6-4).',
     units=[
         K('poulpy-cpu-ref', 'hal_defaults::scratch::verif_kani', ['c12_take_slice_aligned_contract', 'c12_take_slice_aligned_panics_iff_too_small',
           'c12_take_slice_default_u8', 'c12_take_slice_default_i64', 'c12_take_slice_default_f64', 'c12_take_slice_default_i128'], cls='complete', timeout=600,
           functions=['hal_defaults::scratch::take_slice_aligned', 'HalScratchDefaults::take_slice_default', 'HalScratchDefaults::scratch_available_default', 'HalScratchDefaults::scratch_from_bytes_default']),
-        V('vec_znx_ring'), V('vec_znx_normalize'),
+        V('vec_znx_ring'), V('vec_znx_normalize'), V('hal_glue'),
     ],
     trusted_base=VERUS_TRUST,
     assumptions=['buffer lengths <= 192 bytes in the allocator harnesses (the code is length-generic: no loop, pure pointer arithmetic)'],
